@@ -535,3 +535,70 @@ def parse_nf() -> ParseNF:
     if _PNF is None:
         _PNF = ParseNF()
     return _PNF
+
+
+# ---- thin forwarders and the 14 matcher wrappers --------------------------------------------------------
+def _hee_stub(log):
+    def h(I, st, fi, args, kwargs, n, tree):
+        log.append(tuple(args))
+        tree.append(("ev", "hee", tuple(args), getattr(n, "lineno", None), len(log)))
+        return ("hee", len(log))
+    return h
+
+
+def analyse_wrapper_fn(kind: str) -> dict:
+    """Parser.match_<Kind>(context, token): False on EOF (except match_EOF), else the token matcher's match_<Kind> through the error wrapper."""
+    I = new_interp()
+    fi = I.facts.func(f"{PQ}.match_{kind}")
+    log = []
+    I.intrinsics[f"{PQ}.handle_external_error"] = _hee_stub(log)
+    I.intrinsics["gherkin.token.Token.eof"] = lambda I_, st, fi_, args, kw, n, tree: ("eof", args[0])
+    tree, rv, st = I.run(fi.qualname)
+    p = fi.params()
+    info = {"kind": kind, "line": fi.node.lineno, "fi": fi, "eof_guard": False, "target": None, "default": None, "argument": None, "shape_ok": False,
+            "guard_var": None, "found": fmt(rv, I)}
+    if len(p) < 3:
+        return info
+    selft, ctxp, tokp = ("param", p[0]), ("param", p[1]), ("param", p[2])
+    call = None
+    if rv[0] == "hee":
+        call = rv
+    elif rv[0] == "cond":
+        c = rv[1]
+        cn, pol = nf.norm_guard(c, True)
+        a, b = (rv[2], rv[3]) if pol else (rv[3], rv[2])
+        if cn == ("eof", tokp) and is_const(a, False) and b[0] == "hee":
+            info["eof_guard"] = True
+            info["guard_var"] = p[2]
+            call = b
+    if call is None or len(log) != 1:
+        return info
+    args = log[0]
+    if len(args) != 5:
+        return info
+    _self, ctx, dflt, arg, act = args
+    info["default"] = dflt[1] if is_const(dflt) else fmt(dflt, I)
+    info["argument"] = p[2] if arg == tokp else fmt(arg, I)
+    if act[0] == "bound" and act[1] == ("attr", ctxp, "token_matcher"):
+        info["target"] = act[2].rsplit(".", 1)[1]
+    else:
+        info["target"] = fmt(act, I)
+    info["shape_ok"] = ctx == ctxp and arg == tokp
+    return info
+
+
+def analyse_forwarder(name: str, target: str) -> dict:
+    """Parser.<name>(context, x) hands x to ast_builder.<target> through the error wrapper."""
+    I = new_interp()
+    fi = I.facts.func(f"{PQ}.{name}")
+    log = []
+    I.intrinsics[f"{PQ}.handle_external_error"] = _hee_stub(log)
+    tree, rv, st = I.run(fi.qualname)
+    p = fi.params()
+    selft = ("param", p[0])
+    ok = False
+    if len(log) == 1 and len(log[0]) == 5 and len(p) >= 3:
+        _s, ctx, dflt, arg, act = log[0]
+        ok = ctx == ("param", p[1]) and arg == ("param", p[2]) and act[0] == "bound" and act[1] == ("attr", selft, "ast_builder") \
+            and act[2].endswith("." + target) and not [n for n, c in nf.iter_nodes(tree) if n[0] == "ev" and nf.guards_in_ctx(c)]
+    return {"fi": fi, "ok": ok, "found": [[fmt(a, I) for a in x[1:]] for x in log]}
